@@ -53,7 +53,7 @@ def stream_events(tid, words, accel, exps, bases):
 
 
 def api_items(run, nlists, sd, accels):
-    res, finals = tlc.simulate_final_states("OpSeq", "OpSeq.cfg", nlists, 121, sd + 23)
+    res, finals = tlc.simulate_final_states("OpSeq", "OpSeq.cfg", nlists, 133, sd + 23)
     run.add_mc("OpSeq(simulate)", res)
     out = []
     for st in finals:
@@ -74,6 +74,19 @@ def api_items(run, nlists, sd, accels):
                 except Exception:
                     bases.append(None)
             out.append({"src": "api", "accel": accel, "descs": descs2, "words": words, "exps": exps, "bases": bases})
+            if len(out) % 4 == 0:
+                # history: the same operation objects handed to the generator a second time with other buffers
+                nb = 3
+                recs2 = [dict(r, r=r["r"] % nb + 1, w=(r["w"] + 1) % nb + 1, wb=(0 if r["wb"] == 0 else r["wb"] % nb + 1))
+                         for r in st["ops"]]
+                try:
+                    words3, ops3 = apiops.generate_reusing(descs, opseq.realise_list(recs2, accel), accel)
+                except Exception as e:
+                    run.cov.setdefault("api_rejections", []).append("reuse %s: %s" % (type(e).__name__, str(e)[:120]))
+                    continue
+                descs3 = [apiops.describe(o) for o in ops3]
+                out.append({"src": "api", "accel": accel, "descs": descs3, "words": words3,
+                            "exps": [regenc.expected(d, accel) for d in descs3], "bases": [None] * len(descs3)})
     return out
 
 
